@@ -38,8 +38,8 @@ PROPS = {
              "visible. No instruction-level concurrency (single task).",
         design="3/C01"),
     "C02": dict(
-        engine="histsim", profile="C02", builds=["dbg", "dbg16", "rwdi"], level="exploration",
-        quick_s=45, thorough_s=600,
+        engine="histsim", profile="C02", builds=["dbg", "dbg16", "rwdi", "rf8"], level="exploration",
+        quick_s=50, thorough_s=600,
         technique="deterministic simulation: boundary-biased seeded histories, alignment/size oracle with "
                   "ASan-poisoned surroundings",
         text="Same simulator as C01 with the size/alignment oracle: every returned pointer is non-null, "
@@ -94,8 +94,8 @@ PROPS = {
              "taped requests.",
         design="3/C06"),
     "C07": dict(
-        engine="histsim", profile="C07", builds=["dbg", "rwdi", "rel"], level="exploration",
-        quick_s=40, thorough_s=600,
+        engine="histsim", profile="C07", builds=["dbg", "rwdi", "rel", "rf8"], level="exploration",
+        quick_s=45, thorough_s=600,
         technique="deterministic simulation: seeded allocate/next_iteration histories for N=1..5 and all "
                   "block-size residues; lifetime and region-capacity oracle",
         text="iteration_allocator<1..5> with block sizes of every residue mod N: allocations keep their "
